@@ -173,6 +173,15 @@ class SCard(Sym):
     def last(self):
         return SEntry(z3.Select(self.nxA, self.n - 1), z3.Select(self.tmA, self.n - 1))
 
+    def _sym_contains(self, v):
+        """v in card: some live cell equals v (quantified)"""
+        try:
+            e = SEntry.of(v)
+        except (OutOfSubset, TypeError):
+            return False
+        i = z3.Int(self.name + '_k')
+        return mkbool(z3.Exists([i], z3.And(i >= 0, i < self.n, z3.Select(self.nxA, i) == e.nx, z3.Select(self.tmA, i) == e.term)))
+
     def __iter__(self):
         raise OutOfSubset('iteration over a card of symbolic length')
 
